@@ -8,8 +8,8 @@ import Pun.Model.PBox
 * the constructor `Pbox.__init__` + `post_init_check` **in full** (`mkN`): `left_right_switch`
   (numpy `all(left >= right)` with broadcasting of a length-one array, Python's lexicographic `>=` when
   both arguments are lists), `bound_steps_check` in both directions (condensation for longer bounds,
-  `interpolate_p(linspace(p_lo, p_hi, len), bound)` with `kind="next"` for shorter ones, **including the
-  `fill_value=(p[0], p[-1])` quirk**: outside the knots the *probability* knot is returned), the length
+  `interpolate_p(linspace(p_lo, p_hi, len), bound)` with `kind="next"` for shorter ones; outside the knots the
+  end values are returned — `fix:` commit "interpolate_p fills … with the end quantiles"), the length
   assertion, `is_increasing` on both bounds, and the order check `left ≤ right` at every step
   (`fix:` commit "Pbox constructor rejects bounds that cross");
 * NaN: bound entries are `Option Rat`, `none` = NaN, every comparison with `none` is `false`
@@ -78,12 +78,12 @@ def gridPt (c : Cfg) (m j : Nat) : Rat :=
 def nextKnot (c : Cfg) (m : Nat) (x : Rat) : Option Nat :=
   (List.range m).find? (fun j => decide (x ≤ gridPt c m j))
 
-/-- one value of `interp1d(p, q, kind="next", fill_value=(p[0], p[-1]), bounds_error=False)` with
+/-- one value of `interp1d(p, q, kind="next", fill_value=(q[0], q[-1]), bounds_error=False)` with
 `p = linspace(p_lo, p_hi, len q)` -/
 def interpNext (c : Cfg) (b : List NR) (x : Rat) : NR :=
   let m := b.length
-  if x < gridPt c m 0 then some (gridPt c m 0)
-  else if gridPt c m (m - 1) < x then some (gridPt c m (m - 1))
+  if x < gridPt c m 0 then b.getD 0 none
+  else if gridPt c m (m - 1) < x then b.getD (m - 1) none
   else match nextKnot c m x with
     | some j => b.getD j none
     | none => none
@@ -113,12 +113,14 @@ def anyGt (l r : List Rat) : Bool := (l.zip r).any (fun p => decide (p.1 > p.2))
 def guardLE (p : PB) : Except Err PB :=
   if anyGt p.left p.right then .error .Other else .ok p
 
-/-- `Staircase(left, right)` / `Leaf(left, right)` in full.  `lists = true` when both arguments are Python
-lists.  A NaN survives `is_increasing` only in a one-step bound (`np.diff` is empty); that value is not
+/-- the `left_right_switch` decision.  `lists = true` when both arguments are Python lists -/
+def switchN (lists : Bool) (l r : List NR) : Except Err Bool :=
+  if lists then .ok (lexGeN l r) else switchArr l r
+
+/-- the constructor after the switch: both setters (`bound_steps_check`), `steps_check`, `is_increasing`, the
+order check.  A NaN survives `is_increasing` only in a one-step bound (`np.diff` is empty); that value is not
 representable here and reported as `Other`. -/
-def mkN (c : Cfg) (lists : Bool) (l r : List NR) : Except Err PB := do
-  let sw ← if lists then pure (lexGeN l r) else switchArr l r
-  let (l, r) := if sw then (r, l) else (l, r)
+def mkCore (c : Cfg) (l r : List NR) : Except Err PB := do
   let l ← boundStepsN c l
   let r ← boundStepsN c r
   if l.length ≠ r.length then .error .Assertion
@@ -126,6 +128,11 @@ def mkN (c : Cfg) (lists : Bool) (l r : List NR) : Except Err PB := do
   else match unN l, unN r with
     | some l', some r' => guardLE ⟨l', r'⟩
     | _, _ => .error .Other
+
+/-- `Staircase(left, right)` / `Leaf(left, right)` in full -/
+def mkN (c : Cfg) (lists : Bool) (l r : List NR) : Except Err PB := do
+  let sw ← switchN lists l r
+  if sw then mkCore c r l else mkCore c l r
 
 /-! ## division through `1 / other` -/
 
